@@ -47,12 +47,12 @@ type vsrvScript struct {
 	ExtraSHExts      []vfExt
 
 	// ---- HelloRetryRequest ----
-	HRR       bool
-	HRRGroup  uint16 // 0 = no key_share in the HRR
+	HRR      bool
+	HRRGroup uint16 // 0 = no key_share in the HRR
 	// HRRClean: the HelloRetryRequest itself is compliant (echoes the session id, compression 0, the first TLS 1.3
 	// suite the client offers); Suite / SessionID / Compression then only show in the ServerHello that follows the
 	// second ClientHello, and the key schedule runs with the HelloRetryRequest's suite (cooperative adversary)
-	HRRClean bool
+	HRRClean  bool
 	HRRCookie []byte // nil = no cookie
 	// ---- EncryptedExtensions ----
 	ALPN          *string // nil = first client protocol the server Config lists (or none); &"" = none
